@@ -51,7 +51,7 @@ def _eval(ex, ns, X):
 
 def run_carrier(chk, prop, exprs, part='carrier'):
     os.makedirs(tlc.WORK, exist_ok=True)
-    cfg = tlc._cfg_text(constants={'NTokens': len(exprs), 'Levels': set(LEVELS)}, invariants=['CarrierFree'])
+    cfg = tlc._cfg_text(constants={'NTokens': len(exprs), 'Levels': set(LEVELS), 'Promote': True}, invariants=['CarrierFree', 'MechanismIsExact'])
     res = chk.tlc('Carrier', cfg, part=part, workers=2)
     try:
         calls = [st['call'] for st in res.states() if st['phase'] == 'called']
